@@ -126,6 +126,25 @@ def same(a, b):
     return a == b
 
 
+EXPECTED_RESULT_TYPE = {
+    # the documented type of every value of the matrix, by name: independent of ResultType.from_object
+    "null": "null", "bool-": "boolean", "int": "number", "float": "number", "str": "string", "bytes": "binary", "date": "date",
+    "datetime-": "timestamp", "pd-timestamp": "timestamp", "list": "list_result", "dict": "dictionary", "arr-bool": "array_boolean",
+    "arr-int8": "array_int8", "arr-int16": "array_int16", "arr-int32": "array_int32", "arr-int64": "array_int64",
+    "arr-float32": "array_float32", "arr-float64": "array_float64", "arr-empty": "array_float64", "arr-2d": "array_int64",
+    "index": "index", "series": "series", "frame": "data_frame", "partition": "partition",
+}
+
+
+def expected_result_type(name):
+    best = None
+    for k, v in EXPECTED_RESULT_TYPE.items():
+        if name == k or name.startswith(k):
+            if best is None or len(k) > len(best[0]):
+                best = (k, v)
+    return best[1] if best else None
+
+
 def value_matrix(chk, root):
     import twosigma.memento as m
     from twosigma.memento import Environment, ConfigurationRepository, FunctionCluster
@@ -200,6 +219,9 @@ def value_matrix(chk, root):
                         back = st.read_result(mm)
                         if ResultType.from_object(back) != mm.invocation_metadata.result_type:
                             fails.append(dict(clause="result-type-matches", value=name, backend=backend))
+                        elif mm.invocation_metadata.result_type.name != expected_result_type(name):
+                            fails.append(dict(clause="result-type-matches", value=name, backend=backend,
+                                              recorded=mm.invocation_metadata.result_type.name, documented=expected_result_type(name)))
                     except Exception as e:
                         fails.append(dict(clause="result-type-matches", value=name, backend=backend, error=repr(e)[:200]))
             c02fns.tv.forget_all()
